@@ -172,16 +172,23 @@ func ExplorePayload66(c *mc.Ctx, n int) []byte {
 	}
 	len1 := big.NewInt(int64(vlen))
 	al := abiAlphabet(n)
-	pick := func(def *big.Int) *big.Int {
-		if i := c.Deviate(len(al) + 1); i > 0 {
-			return al[i-1]
+	pick := func(def *big.Int, extra ...int) *big.Int {
+		opts := al
+		for _, e := range extra {
+			if e >= 0 {
+				opts = append(append([]*big.Int{}, opts...), big.NewInt(int64(e)))
+			}
+		}
+		if i := c.Deviate(len(opts) + 1); i > 0 {
+			return opts[i-1]
 		}
 		return def
 	}
 	head0 = pick(head0)
 	head1 = pick(head1)
-	len0 = pick(len0)
-	len1 = pick(len1)
+	// length words also get the exact end of the payload and one byte beyond it / short of it
+	len0 = pick(len0, n-96, n-96+1)
+	len1 = pick(len1, vlen+1, vlen-1)
 	put(big.NewInt(0), word(head0))
 	put(big.NewInt(32), word(head1))
 	put(head0, word(len0))
